@@ -1424,7 +1424,16 @@ func (s *BgpServer) rtcVPNCandidates(peer *peer, isWithdraw bool, rt bgp.Extende
 		return
 	}
 	if isWithdraw {
-		s.getBestFromLocalCallbackLocked(peer, fs, false, fn)
+		s.getBestFromLocalCallbackLocked(peer, fs, false, func(_ []*table.Path, filtered []*table.Path) {
+			wd := make([]*table.Path, 0, len(filtered))
+			for _, p := range filtered {
+				if p == nil || p.IsEOR() || !peer.hasPathAlreadyBeenSent(p) {
+					continue
+				}
+				wd = append(wd, p.Clone(true))
+			}
+			fn(nil, wd)
+		})
 		return
 	}
 	fn(nil, s.globalRib.GetBestPathList(peer.TableID(), 0, fs))
